@@ -5,6 +5,7 @@ import sys
 sys.path.insert(0, os.path.dirname(os.path.abspath(__file__)))
 import checklib
 import clientgen
+import clientnet
 import vlib
 
 
@@ -27,8 +28,10 @@ def extra(tier, rng, workdir):
                           "cfg": cases[0]["cfg"], "ops": [o], "trace": [ob],
                           "what": "a response queued together with the registration it answers was served first and dropped "
                                   "(%d of %d trials delivered)" % (ob[1], ob[2])})
-    return {"failures": fails, "evaluations": 2 * trials,
-            "coverage": {"select_race_trials": 2 * trials, "select_race_lost": sum(ob[2] - ob[1] for ob in results[0])}}
+    net = clientnet.evaluate("C16", tier, rng, workdir)
+    cov = {"select_race_trials": 2 * trials, "select_race_lost": sum(ob[2] - ob[1] for ob in results[0])}
+    cov.update(net["coverage"])
+    return {"failures": fails + net["failures"], "evaluations": 2 * trials + net["evaluations"], "coverage": cov}
 
 
 SPEC = {
@@ -36,7 +39,7 @@ SPEC = {
     "props_file": "props/C16.v",
     "suites": suites,
     "extra": extra,
-    "keyfn": clientgen.keyfn,
+    "keyfn": lambda rec: clientnet.key_for(rec) if rec.get("suite") == "clientnet" else clientgen.keyfn(rec),
     "trusted_base": [
         "Coq 8.16.1 kernel (coqc); vm_compute for evaluating model and monitor on the cases; no native_compute",
         "axioms: none declared; Print Assumptions recorded under print_assumptions",
